@@ -94,7 +94,7 @@ def _flow(ch: Choices, tier: str) -> tuple[Any, dict[str, Any], dict[str, Any]]:
     info: dict[str, Any] = {"mode": mode}
     if mode == "w":
         knobs.peer_emulation = bool(ch.pick("k.peer", 2))
-        run = run_w(prog, knobs, ch, nworkers=2 + ch.pick("w.n", 2), strategy=ch.choice("w.strategy", ["random", "pct"]),
+        run = run_w(prog, knobs, ch, nworkers=2 + ch.pick("w.n", 2), strategy=ch.choice("w.strategy", ["random", "pct", "stall"]),
                     pct_depth=1 + ch.pick("w.depth", 3))
         run["bus_log"] = run.get("bus_log") or []
         return prog, run, info
